@@ -84,6 +84,11 @@ func mayBeNilValue(v ssa.Value, b *ssa.BasicBlock, memo nonNilMemo, depth int, s
 	if KnownNonNil(v, b) {
 		return false
 	}
+	if u, ok := v.(*ssa.UnOp); ok && u.Op == token.MUL {
+		if g, ok := u.X.(*ssa.Global); ok && globalNonNil(g, memo, depth) {
+			return false
+		}
+	}
 	if o := Origin(v); o != v {
 		if KnownNonNil(o, b) {
 			return false
@@ -494,4 +499,41 @@ func IsCallTo(match func(string) bool) func(ssa.Instruction) bool {
 // IsTail adapts a name matcher to a tail-call recogniser.
 func IsTail(match func(string) bool) func(ssa.CallInstruction) bool {
 	return func(c ssa.CallInstruction) bool { return match(CalleeName(c)) }
+}
+
+
+// globalNonNil: a package-level variable that is assigned exactly once, in the package
+// initialiser, with a non-nil value (the sentinel-error idiom `var ErrX = errors.New(...)`).
+func globalNonNil(g *ssa.Global, memo nonNilMemo, depth int) bool {
+	pkg := g.Pkg
+	if pkg == nil {
+		return false
+	}
+	stores := 0
+	ok := false
+	for _, m := range pkg.Members {
+		fn, isFn := m.(*ssa.Function)
+		if !isFn {
+			continue
+		}
+		var visit func(f *ssa.Function)
+		visit = func(f *ssa.Function) {
+			for _, b := range f.Blocks {
+				for _, ins := range b.Instrs {
+					if st, isSt := ins.(*ssa.Store); isSt && st.Addr == ssa.Value(g) {
+						stores++
+						if f.Name() == "init" && !mayBeNilValue(st.Val, b, memo, depth+1, map[ssa.Value]bool{}) {
+							ok = true
+						}
+					}
+				}
+			}
+			for _, a := range f.AnonFuncs {
+				visit(a)
+			}
+		}
+		visit(fn)
+	}
+	// methods are not package members: scan them too
+	return ok && stores == 1
 }
